@@ -230,7 +230,9 @@ def stroke_classify(contours, x, y, w, join, miterlimit, cap, dash, offset, band
                 if cap != "butt" and d < cap_ext + band:
                     maybe = True
             else:
-                if join == "round" and d < half - band and on and margin > band:
+                # the disc of a round join: certain only when the vertex is farther than the disc's radius from the next dash
+                # boundary — the vertices of a flattened curve are no joins, and a disc centred on one would reach over a butt end
+                if join == "round" and d < half - band and on and margin > half + band:
                     inside = True
                 if d < join_r + band:
                     maybe = True
